@@ -491,10 +491,18 @@ impl BigDecimal {
                 let diff = digits - prec;
                 let p = ten_to_the(diff);
                 let (mut q, r) = self.int_val.div_rem(&p);
+                // the remainder carries the sign of the value: round on its
+                // magnitude, away from zero
+                let r = r.abs();
 
                 // check for "leading zero" in remainder term; otherwise round
                 if p < 10 * &r {
-                    q += get_rounding_term(&r);
+                    let rounding_term = get_rounding_term(&r);
+                    if self.int_val.is_negative() {
+                        q -= rounding_term;
+                    } else {
+                        q += rounding_term;
+                    }
                 }
 
                 BigDecimal {
